@@ -219,6 +219,17 @@ func (fr *Frame) call(st *State, v ssa.Value, cc *ssa.CallCommon, in ssa.Instruc
 				return fr.staticCall(st, ci.fn, ci.binds, args, in, setResults, freshResults, unmodelled)
 			}
 		}
+		// range-over-func: it(yield) where yield is the compiler's synthetic loop-body closure
+		if err == nil && len(cc.Args) == 1 {
+			if mc, ok := cc.Args[0].(*ssa.MakeClosure); ok {
+				if yf, ok := mc.Fn.(*ssa.Function); ok && yf.Synthetic == "range-over-func yield" {
+					if rerr := fr.rangeOverFunc(st, ft, mc, yf, in); rerr != nil {
+						return unmodelled("range-over-func: " + rerr.Error())
+					}
+					return nil
+				}
+			}
+		}
 		if p, ok := cc.Value.(*ssa.Parameter); ok && fr.depth == 0 {
 			// a callback passed in by the caller: it may do anything to the heap (an input of the
 			// function, not an unknown of the analysis); its calls and its last result are logged
@@ -459,6 +470,287 @@ func (fr *Frame) devirtualize(st *State, cands []implCand, recv Term, args []Ter
 	}
 	*st = *merged
 	setResults(out)
+	return nil
+}
+
+// rangeOverFunc models `for x := range it { body }` (lowered by go/ssa to it(yield$k)) as a loop
+// over the abstract sequence yielded(it, 0..yieldcount(it)-1), which the iterator's contract
+// describes; the synthetic yield closure is the loop body. Invariants come from the enclosing
+// contract under the key "yield<k>" and may mention `yieldindex`.
+func (fr *Frame) rangeOverFunc(st *State, it Term, mc *ssa.MakeClosure, yf *ssa.Function, in ssa.Instruction) error {
+	vc := fr.vc
+	vc.nondet = true
+	ord := vc.ordinal("yield:" + fr.path)
+	key := fmt.Sprintf("yield%d", ord)
+	var spec *LoopSpec
+	if fr.contract != nil {
+		spec = fr.contract.Loops[key]
+	}
+	if spec == nil {
+		vc.note("%s: range-over-func loop %s has no invariant (true assumed)", fr.pos(in.Pos()), key)
+	}
+	vc.DeclareFun("yieldcount", []Sort{SFunc}, SInt)
+	n := App(SInt, "yieldcount", it)
+	st.assume(Ge(n, IntLit(0)))
+	var binds []Term
+	var jumpCell Term
+	for _, b := range mc.Bindings {
+		t, err := fr.value(b)
+		if err != nil {
+			return err
+		}
+		binds = append(binds, t)
+		if al, ok := b.(*ssa.Alloc); ok && strings.HasPrefix(al.Comment, "jump$") {
+			jumpCell = t
+		}
+	}
+	intT := types.Typ[types.Int]
+	blk := in.Block()
+	envAt := func(s *State, k Term) *SpecEnv {
+		env := fr.baseEnv(s)
+		env.lookup = func(nm string) (SpecVal, bool) { return fr.lookupLocal(nm, blk, s, nil) }
+		env.vars["yieldindex"] = SpecVal{T: k}
+		env.vars["iterator"] = SpecVal{T: it, Ty: cc0Type(in)}
+		return env
+	}
+	jumpZero := func(s *State) Term {
+		if !jumpCell.Valid() {
+			return True
+		}
+		v, err := vc.loadRaw(s, jumpCell, intT)
+		if err != nil {
+			return True
+		}
+		zero, _ := vc.zeroValue(intT)
+		return Eq(v, zero)
+	}
+	check := func(s *State, k Term, phase string) {
+		if spec != nil {
+			for _, inv := range spec.Invs {
+				t, err := envAt(s, k).EvalBool(inv.E)
+				if err != nil {
+					vc.note("contract error: loop %s invariant %s: %v", key, inv.Label, err)
+					continue
+				}
+				vc.addObl(&Obligation{Name: fr.oblName("inv", fmt.Sprintf("%s.%s:%s", key, inv.Label, phase)), Kind: "inv-" + phase, Reach: s.reach, Cond: t,
+					Taint: s.taint, Pos: fr.pos(in.Pos()), Descr: "range-over-func loop invariant (" + phase + "): " + inv.Src})
+			}
+		}
+		vc.addObl(&Obligation{Name: fr.oblName("inv", fmt.Sprintf("%s.resume:%s", key, phase)), Kind: "inv-" + phase, Reach: s.reach, Cond: jumpZero(s),
+			Taint: s.taint, Pos: fr.pos(in.Pos()), Descr: "the loop body leaves the range-over-func state cell ready for the next element"})
+	}
+	// 1. invariants on entry
+	check(st, IntLit(0), "init")
+	// 2. havoc what the body may write
+	hs := st.clone()
+	ef := &effects{sorts: map[Sort][]Term{}, unk: map[Sort]bool{}, ghostVars: map[string]bool{}, fresh: map[Sort]bool{}, exact: map[Sort][]Term{}}
+	fr.yieldEffects(yf, mc, binds, ef)
+	if ef.all {
+		vc.havocAll(hs)
+	} else {
+		var sl []string
+		for s := range ef.sorts {
+			sl = append(sl, string(s))
+		}
+		sort.Strings(sl)
+		for _, ss := range sl {
+			s := Sort(ss)
+			old := vc.heap(hs, s)
+			if ef.unk[s] {
+				hs.heaps[s] = vc.Fresh("hy", heapSort(s))
+			} else {
+				var conds []string
+				for _, a := range ef.exact[s] {
+					conds = append(conds, fmt.Sprintf("(not (= q!r %s))", a.S))
+				}
+				if ef.fresh[s] {
+					conds = append(conds, fmt.Sprintf("(< (rid q!r) %s)", st.alloc.S))
+				}
+				hs.heaps[s] = vc.MixHeap(s, old, Term{fmt.Sprintf("(and %s true)", strings.Join(conds, " ")), SBool})
+			}
+			hs.touch(s)
+			vc.heapReg[s] = true
+		}
+		if ef.maps {
+			hs.maps = map[string]Term{}
+			hs.mbase = vc.freshName("ep")
+		}
+		na := vc.Fresh("alloc", SInt)
+		hs.assume(Ge(na, hs.alloc))
+		hs.alloc = na
+		for g := range ef.ghostVars {
+			if gv := vc.ctx.ghostVars[g]; gv != nil {
+				vc.havocGhostVar(hs, gv)
+			}
+		}
+	}
+	k := vc.Fresh("yieldindex", SInt)
+	hs.assume(And(Le(IntLit(0), k), Le(k, n)))
+	if spec != nil {
+		for _, inv := range spec.Invs {
+			if t, err := envAt(hs, k).EvalBool(inv.E); err == nil {
+				hs.assume(t)
+			}
+		}
+	}
+	hs.assume(jumpZero(hs))
+	hs.reach = vc.Define("reach", hs.reach)
+	// 3. one arbitrary iteration
+	bs := hs.clone()
+	bs.assume(Lt(k, n))
+	var yargs []Term
+	for i, p := range yf.Params {
+		srt, err := vc.tt.SortOf(p.Type())
+		if err != nil {
+			return err
+		}
+		fn := fmt.Sprintf("yielded%d!%s", i, sanitize(string(srt)))
+		vc.DeclareFun(fn, []Sort{SFunc, SInt}, srt)
+		e := App(srt, fn, it, k)
+		bs.assume(vc.rangeAssumption(e, p.Type(), bs.alloc))
+		yargs = append(yargs, e)
+	}
+	bs.reach = vc.Define("reach", bs.reach)
+	rs, err := fr.inline(bs, yf, nil, binds, yargs, in)
+	if err != nil {
+		return err
+	}
+	if len(rs) != 1 || rs[0].Sort != SBool {
+		return fmt.Errorf("yield closure does not return a bool")
+	}
+	cont := bs.clone()
+	cont.assume(rs[0])
+	cont.reach = vc.Define("reach", cont.reach)
+	check(cont, Add(k, IntLit(1)), "preserve")
+	// 4. after the loop: exhausted, or the body asked to stop
+	done := hs.clone()
+	done.assume(Ge(k, n))
+	done.reach = vc.Define("reach", done.reach)
+	brk := bs.clone()
+	brk.assume(Not(rs[0]))
+	brk.reach = vc.Define("reach", brk.reach)
+	*st = *vc.mergeStates([]*State{done, brk})
+	vc.assume("range-over-func: the iterator yields the abstract sequence its contract describes (the producer side is assumed, not verified)")
+	return nil
+}
+
+// yieldEffects: what the loop-body closure may write; stores through captured variables are
+// exact addresses (the captured cells are allocated before the loop).
+func (fr *Frame) yieldEffects(yf *ssa.Function, mc *ssa.MakeClosure, binds []Term, ef *effects) {
+	vc := fr.vc
+	fv := map[ssa.Value]Term{}
+	for i, f := range yf.FreeVars {
+		if i < len(binds) {
+			fv[f] = binds[i]
+		}
+	}
+	for _, b := range yf.Blocks {
+		for _, in := range b.Instrs {
+			switch x := in.(type) {
+			case *ssa.Store:
+				leaf := map[Sort]bool{}
+				vc.leafSorts(x.Addr.Type().Underlying().(*types.Pointer).Elem(), leaf)
+				if a, ok := fv[x.Addr]; ok && vc.tt.Slots(x.Addr.Type().Underlying().(*types.Pointer).Elem()) == 1 {
+					for s := range leaf {
+						ef.exact[s] = append(ef.exact[s], a)
+						if _, has := ef.sorts[s]; !has {
+							ef.sorts[s] = nil
+						}
+					}
+					continue
+				}
+				if _, isAlloc := x.Addr.(*ssa.Alloc); isAlloc {
+					for s := range leaf {
+						ef.fresh[s] = true
+						if _, has := ef.sorts[s]; !has {
+							ef.sorts[s] = nil
+						}
+					}
+					continue
+				}
+				if ia, ok := x.Addr.(*ssa.IndexAddr); ok {
+					if _, isAlloc := ia.X.(*ssa.Alloc); isAlloc {
+						for s := range leaf {
+							ef.fresh[s] = true
+							if _, has := ef.sorts[s]; !has {
+								ef.sorts[s] = nil
+							}
+						}
+						continue
+					}
+				}
+				for s := range leaf {
+					ef.unk[s] = true
+					if _, has := ef.sorts[s]; !has {
+						ef.sorts[s] = nil
+					}
+				}
+			case *ssa.MapUpdate, *ssa.MakeMap:
+				ef.maps = true
+			case *ssa.Alloc:
+				leaf := map[Sort]bool{}
+				vc.leafSorts(x.Type().Underlying().(*types.Pointer).Elem(), leaf)
+				for s := range leaf {
+					ef.fresh[s] = true
+					if _, has := ef.sorts[s]; !has {
+						ef.sorts[s] = nil
+					}
+				}
+			case *ssa.MakeInterface:
+				if srt, err := vc.tt.SortOf(x.X.Type()); err == nil && srt != SRef {
+					leaf := map[Sort]bool{}
+					vc.leafSorts(x.X.Type(), leaf)
+					for s := range leaf {
+						ef.fresh[s] = true
+						if _, has := ef.sorts[s]; !has {
+							ef.sorts[s] = nil
+						}
+					}
+				}
+			case *ssa.Go:
+				ef.all = true
+			case ssa.CallInstruction:
+				cc := x.Common()
+				if bi, ok := cc.Value.(*ssa.Builtin); ok {
+					switch bi.Name() {
+					case "append":
+						leaf := map[Sort]bool{}
+						vc.leafSorts(cc.Args[0].Type().Underlying().(*types.Slice).Elem(), leaf)
+						for s := range leaf {
+							ef.unk[s] = true
+							if _, has := ef.sorts[s]; !has {
+								ef.sorts[s] = nil
+							}
+						}
+					case "copy":
+						leaf := map[Sort]bool{}
+						vc.leafSorts(cc.Args[0].Type().Underlying().(*types.Slice).Elem(), leaf)
+						for s := range leaf {
+							ef.unk[s] = true
+							if _, has := ef.sorts[s]; !has {
+								ef.sorts[s] = nil
+							}
+						}
+					case "delete", "clear":
+						ef.maps = true
+					}
+					continue
+				}
+				dummy := &loopInfo{blocks: map[*ssa.BasicBlock]bool{}}
+				for _, bb := range yf.Blocks {
+					dummy.blocks[bb] = true
+				}
+				fr.callEffects(x, dummy, ef)
+			}
+		}
+	}
+}
+
+// cc0Type: static type of the called function value of a call instruction (the iterator).
+func cc0Type(in ssa.Instruction) types.Type {
+	if ci, ok := in.(ssa.CallInstruction); ok {
+		return ci.Common().Value.Type()
+	}
 	return nil
 }
 
